@@ -2,7 +2,7 @@
 From Coq Require Import ZArith List Bool Lia String.
 Import ListNotations.
 From GV Require Import Common.Wire gen.Gen_tables C12.Model C02.Model.
-From GV Require Export C02.Lemmas1 C02.Lemmas2 C02.CodecLemmas.
+From GV Require Export C02.Lemmas1 C02.Lemmas2 C02.CodecLemmas C02.MethodCodecLemmas.
 Open Scope Z_scope.
 
 (* Full statement (FALSE of the current table, see _refuted):
@@ -59,3 +59,6 @@ Definition codec_every_record_loadable := CodecLemmas.codec_every_record_loadabl
 Definition codec_values_unconditional := CodecLemmas.codec_values_unconditional.
 Definition codec_conditional_keys_listed := CodecLemmas.codec_conditional_keys_listed.
 Definition codec_ctor_fed := CodecLemmas.codec_ctor_fed.
+Definition method_values_lossless := MethodCodecLemmas.method_values_lossless.
+Definition method_loader_steps_listed := MethodCodecLemmas.method_loader_steps_listed.
+Definition method_reads_written := MethodCodecLemmas.method_reads_written.
